@@ -201,7 +201,8 @@ def check_host(case):
     typ = {g[0]: g[1] for g in host['gates']}
     alias = case.get('alias')
     hs = case.get('hand', 'list')
-    arg_a = arith.hand(a, hs)
+    fn_decl = getattr(ar, ADD_MUL[case['mode']]) if case['kind'] == 'mul' else (ar.add_square if case['mode'] == 'DEFAULT' else ar.add_square_pow2_m1)
+    arg_a = arith.hand(a, hs, fn_decl)
     acls = {'hand:' + hs}
     if alias in ('inputs', 'outputs'):
         live = c.inputs if alias == 'inputs' else c.outputs
@@ -211,7 +212,7 @@ def check_host(case):
     with UuidStream(case['uuid_seed']):
         if case['kind'] == 'mul':
             b = arith.resolve_operands(host, case['b'])
-            arg_b = arith.hand(b, hs)
+            arg_b = arith.hand(b, hs, fn_decl)
             if alias == 'same_object':
                 arg_a = list(a)
                 b, arg_b = list(a), arg_a
